@@ -809,6 +809,30 @@ class Eval:
         if cid == "std::ops::Try::branch":
             return ("cf", args[0])
         if cid == "std::ops::FromResidual::from_residual":
+            # `Err(e)?` with the same error type on both sides returns Err(e) unchanged (From<T> for T is the identity)
+            ga = fn.get("gargs", [])
+            a0 = args[0]
+            if len(ga) == 2 and a0[0] == "residual" and a0[1][0] == "agg" and a0[1][2] == "Err" and a0[1][3]:
+                def err_ty(x):
+                    x = x.strip()
+                    if not x.startswith("std::result::Result<") or not x.endswith(">"):
+                        return None
+                    depth, cur, parts = 0, "", []
+                    for ch in x[len("std::result::Result<"):-1]:
+                        if ch == "<":
+                            depth += 1
+                        elif ch == ">":
+                            depth -= 1
+                        if ch == "," and depth == 0:
+                            parts.append(cur.strip())
+                            cur = ""
+                        else:
+                            cur += ch
+                    parts.append(cur.strip())
+                    return parts[1] if len(parts) == 2 else None
+                e1, e2 = err_ty(ga[0]), err_ty(ga[1])
+                if e1 is not None and e1 == e2:
+                    return ("agg", "std::result::Result", "Err", (("0", a0[1][3][0][1]),))
             return ("from_residual", args[0])
         # ---- local callees are inlined ----
         key = fn.get("resolved_key") or fn.get("key")
